@@ -26,6 +26,48 @@ static void mt_setup(void);
 static void mt_setup(void) {}
 #endif
 
+/* Watchdog of this harness.  ThreadSanitizer defers an asynchronous signal to the next interceptor call of the thread it hits, so the
+ * per-case SIGALRM of vf_common.h never arrives in a thread that spins inside a damaged structure or is stuck inside the runtime (seen
+ * with a seeded tree defect: the tree became cyclic, a recursive fold overflowed the stack, and the runtime's fatal-signal report
+ * dead-locked on itself at 0 % CPU until the driver's 900 s limit).  A helper thread that shares one atomic tick with the main thread
+ * and nothing with the items ends the process with the watchdog's exit code, by raw system calls: the runtime's own exit path may
+ * need locks the stuck thread holds. */
+#include <sys/syscall.h>
+#define MT_WD_SECONDS 40
+static uint64_t mt_wd_tick;
+static void *mt_wd_thread(void *arg)
+{
+    uint64_t seen = __atomic_load_n(&mt_wd_tick, __ATOMIC_RELAXED);
+    unsigned quiet = 0;
+    (void)arg;
+    for (;;)
+    {
+        struct timespec const ts = {1, 0};
+        uint64_t now;
+        syscall(SYS_nanosleep, &ts, NULL);
+        now = __atomic_load_n(&mt_wd_tick, __ATOMIC_RELAXED);
+        if (now != seen) { seen = now; quiet = 0; }
+        else if (++quiet >= MT_WD_SECONDS)
+        {
+            static char const m[] = "\nvf: case watchdog fired\n";
+            syscall(SYS_write, 2, m, sizeof m - 1);
+            syscall(SYS_exit_group, 124);
+        }
+    }
+    return NULL;
+}
+static void mt_watchdog_tick(void)
+{
+    static int started;
+    __atomic_fetch_add(&mt_wd_tick, 1, __ATOMIC_RELAXED);
+    if (!started)
+    {
+        pthread_t th;
+        started = 1;
+        if (!pthread_create(&th, NULL, mt_wd_thread, NULL)) { pthread_detach(th); }
+    }
+}
+
 /* ============================================================================================ C01 C02 C03: trees */
 #if VF_MT <= 3
 typedef struct { a_avl_node n; int key; int live; } mt_an;
@@ -33,12 +75,17 @@ typedef struct { a_rbt_node n; int key; int live; } mt_rn;
 static int mt_acmp(void const *l, void const *r) { int a = ((mt_an const *)l)->key, b = ((mt_an const *)r)->key; return (a > b) - (a < b); }
 static int mt_rcmp(void const *l, void const *r) { int a = ((mt_rn const *)l)->key, b = ((mt_rn const *)r)->key; return (a > b) - (a < b); }
 
-/* height and shape through child links only; stored factor / colour through the public fields or accessors */
-static int mt_avl_fold(a_avl_node *x, uint64_t *h)
+/* height and shape through child links only; stored factor / colour through the public fields or accessors.  The descent is cut
+ * at a depth no tree of this size can have: a defect that closes a cycle of child links must not overflow the stack */
+#define MT_TREE_DEPTH 64
+#define mt_avl_fold(x, h) mt_avl_fold_(x, h, 0)
+#define mt_rbt_fold(x, h) mt_rbt_fold_(x, h, 0)
+static int mt_avl_fold_(a_avl_node *x, uint64_t *h, int depth)
 {
     int hl, hr;
     if (!x) { *h = mt_fold_u64(*h, 0x4e); return 0; }
-    hl = mt_avl_fold(x->left, h);
+    if (depth > MT_TREE_DEPTH) { *h = mt_fold_u64(*h, 0xDEE9); return 0; }
+    hl = mt_avl_fold_(x->left, h, depth + 1);
     *h = mt_fold_u64(*h, (uint64_t)(unsigned)a_avl_entry(x, mt_an, n)->key);
 #if defined(A_SIZE_POINTER) && (A_SIZE_POINTER + 0 > 3)
     *h = mt_fold_u64(*h, (uint64_t)(x->parent_ & 3));
@@ -46,15 +93,16 @@ static int mt_avl_fold(a_avl_node *x, uint64_t *h)
     *h = mt_fold_u64(*h, (uint64_t)(unsigned)(x->factor + 1));
 #endif
     *h = mt_fold_u64(*h, a_avl_parent(x) ? (uint64_t)(unsigned)a_avl_entry(a_avl_parent(x), mt_an, n)->key : 0xFFFFFFFFFFull);
-    hr = mt_avl_fold(x->right, h);
+    hr = mt_avl_fold_(x->right, h, depth + 1);
     *h = mt_fold_u64(*h, (uint64_t)(unsigned)(hr - hl + 8));
     return 1 + (hl > hr ? hl : hr);
 }
-static int mt_rbt_fold(a_rbt_node *x, uint64_t *h)
+static int mt_rbt_fold_(a_rbt_node *x, uint64_t *h, int depth)
 {
     int bl, br;
     if (!x) { *h = mt_fold_u64(*h, 0x4e); return 1; }
-    bl = mt_rbt_fold(x->left, h);
+    if (depth > MT_TREE_DEPTH) { *h = mt_fold_u64(*h, 0xDEE9); return 1; }
+    bl = mt_rbt_fold_(x->left, h, depth + 1);
     *h = mt_fold_u64(*h, (uint64_t)(unsigned)a_rbt_entry(x, mt_rn, n)->key);
 #if defined(A_SIZE_POINTER) && (A_SIZE_POINTER + 0 > 3)
     *h = mt_fold_u64(*h, (uint64_t)(x->parent_ & 1));
@@ -62,7 +110,7 @@ static int mt_rbt_fold(a_rbt_node *x, uint64_t *h)
     *h = mt_fold_u64(*h, (uint64_t)(unsigned)x->color);
 #endif
     *h = mt_fold_u64(*h, a_rbt_parent(x) ? (uint64_t)(unsigned)a_rbt_entry(a_rbt_parent(x), mt_rn, n)->key : 0xFFFFFFFFFFull);
-    br = mt_rbt_fold(x->right, h);
+    br = mt_rbt_fold_(x->right, h, depth + 1);
     *h = mt_fold_u64(*h, (uint64_t)(unsigned)(bl * 64 + br));
     return bl;
 }
@@ -2146,6 +2194,7 @@ static uint64_t vf_ncases(int tier) { return tier ? 24 : 3; }
 static void vf_case(uint64_t c, vf_rng *r)
 {
     (void)r;
+    mt_watchdog_tick();
     mt_setup();
     mt_run_case(c, ITEMS, (unsigned)(sizeof ITEMS / sizeof ITEMS[0]));
 }
